@@ -1,5 +1,5 @@
 CONSTANTS
-  D4 = {32, 33, 35, 65534}
+  D4 = {32, 33, 34, 65534}
   G4 = {0, 1, 2}
   G2 = {0, 1}
   DL2 = {0, 5}
